@@ -61,19 +61,22 @@ def compare(model_name, pid, traces, chunk=400):
         # monitor on the model's own stream (must always pass: that is the theorem)
         mtext = []
         for t in part:
-            mo = model_out.get("#" + t["id"], [])
-            labs = [ln.split(";", 1)[0].strip() for ln in t["lines"]]
-            mtext.append("#" + t["id"] + "\n" + "\n".join(f"{l} ; {o}" for l, o in zip(labs, mo)))
+            mo = [x for x in model_out.get("#" + t["id"], []) if not x.startswith("@")]
+            hdr = [ln for ln in t["lines"] if ";" not in ln]
+            labs = [ln.split(";", 1)[0].strip() for ln in t["lines"] if ";" in ln]
+            mtext.append("#" + t["id"] + "\n" + "\n".join(hdr + [f"{l} ; {o}" for l, o in zip(labs, mo)]))
         mon_model = split_traces(run_driver([model_name, "monitor", pid], "\n".join(mtext) + "\n"))
         for t in part:
             h = "#" + t["id"]
             r = {"id": t["id"], "n": len(t["lines"]), "diverge": None, "impl_mon": None,
                  "model_mon": None, "error": t.get("error")}
-            mo = model_out.get(h, [])
-            if mo and mo[0].startswith("ERROR"):
-                r["error"] = "model driver: " + mo[0]
+            mo_all = model_out.get(h, [])
+            r["model_info"] = [x for x in mo_all if x.startswith("@")]
+            mo = [x for x in mo_all if not x.startswith("@")]
+            if mo and mo[-1].startswith("ERROR"):
+                r["error"] = "model driver: " + mo[-1]
             else:
-                for i, ln in enumerate(t["lines"]):
+                for i, ln in enumerate([ln for ln in t["lines"] if ";" in ln]):
                     io = ln.split(";", 1)[1].strip()
                     if i >= len(mo) or mo[i].strip() != io:
                         r["diverge"] = (i, io, mo[i].strip() if i < len(mo) else "<none>")
